@@ -291,6 +291,64 @@ def check(run):
             b = ['nd', dt, list(reversed(shape)), tv]
             if a != b:
                 judge('transpose', norm(('task', 'f', [a], [])), norm(('task', 'f', [b], [])))
+    # functions of the same name in different modules are different functions (plain tasks, tasklets, and every way map/mapreduce/
+    # currymap/reduce embed their mapper and reducer, plain or wrapped by TaskGenerator)
+    import jug.task
+    from jug import Task, TaskGenerator
+    from jug.task import Tasklet
+    from jug.mapreduce import map as jmap, mapreduce as jmr, currymap as jcm, reduce as jred
+    from jugverif import hashfuncs2 as h2m
+
+    def all_ids(build):
+        del jug.task.alltasks[:]
+        top = build()
+        out = sorted(t.hash().decode() for t in jug.task.alltasks)
+        extra = []
+        if isinstance(top, Tasklet):
+            # only the consumer of the tasklet (its base task is, rightly, the same invocation in both builds)
+            out = [Task(hm.f, top).hash().decode()]
+        del jug.task.alltasks[:]
+        return set(out)
+    fam = [
+        ('Task(f, 1)', lambda m: Task(m.f, 1)),
+        ('Tasklet(t, op)', lambda m: Tasklet(Task(hm.g, 1), m.op)),
+        ('map(plain mapper)', lambda m: jmap(m._m21, list(range(7)), map_step=3)),
+        ('map(TaskGenerator mapper)', lambda m: jmap(TaskGenerator(m.tgm), list(range(7)), map_step=3)),
+        ('map(TaskGenerator mapper, map_step=1)', lambda m: jmap(TaskGenerator(m.tgm), list(range(3)), map_step=1)),
+        ('currymap(TaskGenerator mapper)', lambda m: jcm(TaskGenerator(m.tgm), [(j,) for j in range(5)], map_step=2)),
+        ('mapreduce(plain reducer, TaskGenerator mapper)', lambda m: jmr(hm._m21, TaskGenerator(m.tgm), list(range(9)), map_step=2, reduce_step=3)),
+        ('mapreduce(TaskGenerator reducer, plain mapper)', lambda m: jmr(TaskGenerator(m.tgm), hm._m21, list(range(9)), map_step=2, reduce_step=3)),
+        ('reduce(TaskGenerator reducer)', lambda m: jred(TaskGenerator(m.tgm), list(range(9)), reduce_step=3)),
+    ]
+    for label, build in fam:
+        try:
+            a_ids, b_ids = all_ids(lambda: build(hm)), all_ids(lambda: build(h2m))
+        except Exception as e:
+            run.count('build_errors')
+            continue
+        run.case(('same-name-other-module', label), nontrivial=True)
+        stats['same-name-other-module'] = stats.get('same-name-other-module', 0) + 1
+        shared = a_ids & b_ids
+        if shared:
+            run.fail('collision:same-name-other-module', '%s built with functions of the same name from two different modules (jugverif.hashmodel / jugverif.hashfuncs2): %d of the %d task identifiers are shared, '
+                     'e.g. %s - the two computations would take each other\'s results' % (label, len(shared), len(a_ids), sorted(shared)[0]), {'kind': 'same-name-other-module', 'what': label})
+    # consumers of different elements / views of one task are different invocations (return_tuple, iteratetask, items, slices, nested)
+    from jug.task import return_tuple, iteratetask
+    del jug.task.alltasks[:]
+    base3 = return_tuple(3)(TaskGenerator(hm.f))(1, 2)
+    plain = Task(hm.g, 5)
+    views = [('return_tuple element %d' % j, v) for j, v in enumerate(base3)] + [('iteratetask element %d' % j, v) for j, v in enumerate(iteratetask(plain, 3))] + \
+            [('t[%d]' % j, plain[j]) for j in range(3)] + [('t[0:2]', plain[0:2]), ('t[1:3]', plain[1:3]), ('t[0][1]', plain[0][1]), ('t[1][1]', plain[1][1]), ('t[0][0]', plain[0][0])]
+    cons = {}
+    for label, v in views:
+        hid = Task(hm.h2, v).hash().decode()
+        run.case(('distinct-views', label), nontrivial=True)
+        if hid in cons and not (label.startswith('t[') and cons[hid].startswith('iteratetask element') and label[2] == cons[hid][-1] and len(label) == 4):
+            run.fail('collision:views-of-one-task', 'h2(%s) and h2(%s) share the identifier %s: consumers of different elements of the same task are taken for one another' % (cons[hid], label, hid),
+                     {'kind': 'distinct-views', 'a': cons[hid], 'b': label})
+        cons.setdefault(hid, label)
+    stats['distinct-views'] = len(views)
+    del jug.task.alltasks[:]
     # (b) random specs x mutations
     n = 250 if quick else 4000
     for i in range(n):
